@@ -411,7 +411,14 @@ impl<'ast, 'psess, 'c> ModResolver<'ast, 'psess> {
                     if outside_mods_empty {
                         return Ok(None);
                     } else {
-                        if should_insert {
+                        // `sub_mod` only stands in for the entry the file already has in the file
+                        // map. A file that was parsed and opted out (`#![rustfmt::skip]`) has
+                        // none and must not get one: the stand-in spans the declaring file.
+                        if should_insert
+                            && self
+                                .file_map
+                                .contains_key(&FileName::Real(file_path.clone()))
+                        {
                             mods_outside_ast.push((file_path, dir_ownership, sub_mod.clone()));
                         }
                         return Ok(Some(SubModKind::MultiExternal(mods_outside_ast)));
@@ -551,12 +558,19 @@ impl<'ast, 'psess, 'c> ModResolver<'ast, 'psess> {
                 continue;
             }
             if self.psess.is_file_parsed(&actual_path) {
-                // If the specified file is already parsed, then we just use that.
-                result.push((
-                    actual_path,
-                    DirectoryOwnership::Owned { relative: None },
-                    sub_mod.clone(),
-                ));
+                // If the specified file is already parsed, then we just use that: `sub_mod` stands
+                // in for its entry in the file map. A file that opted out (`#![rustfmt::skip]`)
+                // has no entry and must not get one: the stand-in spans the declaring file.
+                if self
+                    .file_map
+                    .contains_key(&FileName::Real(actual_path.clone()))
+                {
+                    result.push((
+                        actual_path,
+                        DirectoryOwnership::Owned { relative: None },
+                        sub_mod.clone(),
+                    ));
+                }
                 continue;
             }
             let (attrs, items, span) =
